@@ -31,6 +31,20 @@ def wid(witness):
     return hashlib.sha1(jdump(witness).encode()).hexdigest()[:12]
 
 
+class ViolationBudget(BaseException):
+    """raised inside a shard once it has collected NEW_BUDGET violations that are not listed known findings:
+    a tree that breaks the property that badly often also makes the search space blow up (states that no longer
+    merge); the verdict is settled, so the shard stops.  Never raised on a tree without unlisted violations."""
+
+    def __init__(self, acc):
+        BaseException.__init__(self, 'violation budget')
+        self.acc = acc
+
+
+IS_KNOWN = None          # installed by the runner: f(violation dict) -> bool
+NEW_BUDGET = 400
+
+
 class Acc(object):
     MAX_SAMPLES = 12
     MAX_VIOL_PER_SIG = 4000
@@ -70,8 +84,13 @@ class Acc(object):
         self._viol_seen.add(w)
         k = self._viol_per_sig.get(sig, 0)
         self._viol_per_sig[sig] = k + 1
-        self.violations.append({'sig': sig, 'cfg': cfg, 'wid': w,
-                                'witness': witness, 'msg': msg})
+        v = {'sig': sig, 'cfg': cfg, 'wid': w, 'witness': witness, 'msg': msg}
+        self.violations.append(v)
+        if IS_KNOWN is not None and NEW_BUDGET and not IS_KNOWN(v):
+            self._new = getattr(self, '_new', 0) + 1
+            if self._new >= NEW_BUDGET:
+                self.cap('stopped after %d unlisted violations in one shard' % NEW_BUDGET)
+                raise ViolationBudget(self)
 
     # -- merging ---------------------------------------------------------------
     def merge(self, other):
